@@ -122,6 +122,9 @@ type Conc struct {
 	Pairs []string
 	Files []string // schema files that can hold fields ("a","b")
 
+	names     map[string]pairName // pair -> concrete type / field name
+	typeNames map[string]string   // abstract type -> concrete type name
+
 	bodyTok map[string]string // normalised body text (without use lines) -> token
 	docTok  map[string]string // raw doc text -> token
 	helpTok map[string]struct{ tok, file string }
@@ -175,7 +178,7 @@ func (c *Conc) WriteSchema(s *PState) error {
 	}
 	sort.Strings(types)
 	for _, t := range types {
-		fmt.Fprintf(&base, "\ntype %s {\n  id: ID!\n}\n", t)
+		fmt.Fprintf(&base, "\ntype %s {\n  id: ID!\n}\n", c.concreteType(t))
 	}
 	if err := os.WriteFile(filepath.Join(c.Root, "base.graphqls"), []byte(base.String()), 0o644); err != nil {
 		return err
@@ -184,8 +187,7 @@ func (c *Conc) WriteSchema(s *PState) error {
 		byType := map[string][]string{}
 		for _, p := range c.Pairs {
 			if s.Schema[p] == f {
-				t, fld := splitPair(p)
-				byType[t] = append(byType[t], fld)
+				byType[c.typeName(p)] = append(byType[c.typeName(p)], c.fieldName(p))
 			}
 		}
 		var sb strings.Builder
@@ -231,36 +233,37 @@ func (c *Conc) Create(s *PState) error {
 // ---- user edits of Go sources ------------------------------------------------------
 
 // methodSource renders the body text of a method record: use lines + pool text.
-func (c *Conc) methodBody(pair string, m MethRec) string {
+func (c *Conc) methodBody(pair, mname string, m MethRec) string {
 	var lines []string
 	for _, u := range sortedCopy(m.Uses) {
 		lines = append(lines, c.useLine(u))
 	}
 	var body string
 	if m.Body == "gen" {
-		_, f := splitPair(pair)
-		body = fmt.Sprintf("panic(fmt.Errorf(\"not implemented: %s - %s\"))", methodName(pair), f)
+		body = fmt.Sprintf("panic(fmt.Errorf(\"not implemented: %s - %s\"))", mname, c.fieldName(pair))
 	} else {
 		body = c.bodyText(m.Body, m.Named, pair)
 	}
 	return strings.Join(append(lines, body), "\n")
 }
 
-func findMethod(f *ast.File, recv, name string) *ast.FuncDecl {
+// findMethod finds the declaration of pair's resolver method under whatever
+// receiver / method name the generator chose (returns the receiver type name too).
+func (c *Conc) findMethod(f *ast.File, pair string) (*ast.FuncDecl, string) {
 	for _, d := range f.Decls {
 		fd, ok := d.(*ast.FuncDecl)
-		if !ok || fd.Recv == nil || len(fd.Recv.List) == 0 || fd.Name.Name != name {
+		if !ok || fd.Recv == nil || len(fd.Recv.List) == 0 {
 			continue
 		}
 		t := fd.Recv.List[0].Type
 		if st, ok := t.(*ast.StarExpr); ok {
 			t = st.X
 		}
-		if id, ok := t.(*ast.Ident); ok && id.Name == recv {
-			return fd
+		if id, ok := t.(*ast.Ident); ok && c.pairOf(id.Name, fd.Name.Name) == pair {
+			return fd, id.Name
 		}
 	}
-	return nil
+	return nil, ""
 }
 
 // SetMethod rewrites the declaration of pair's method in resolver file rfile
@@ -278,10 +281,11 @@ func (c *Conc) SetMethod(rfile, pair string, m MethRec) error {
 	if err != nil {
 		return err
 	}
-	fd := findMethod(f, recvName(pair), methodName(pair))
+	fd, recv := c.findMethod(f, pair)
 	if fd == nil {
-		return fmt.Errorf("%s: method %s.%s not found", rfile, recvName(pair), methodName(pair))
+		return fmt.Errorf("%s: resolver method of %s (%s.%s) not found", rfile, pair, c.typeName(pair), c.fieldName(pair))
 	}
+	mname := fd.Name.Name
 	off := func(p token.Pos) int { return fset.Position(p).Offset }
 	start := off(fd.Pos())
 	if fd.Doc != nil {
@@ -299,10 +303,10 @@ func (c *Conc) SetMethod(rfile, pair string, m MethRec) error {
 		results = fmt.Sprintf("(res %s, err error)", rtype)
 	}
 	var sb strings.Builder
-	if d := c.docText(m.Doc, pair); d != "" {
+	if d := c.docText(m.Doc, pair, mname); d != "" {
 		sb.WriteString(d + "\n")
 	}
-	fmt.Fprintf(&sb, "func (r *%s) %s(%s) %s {\n%s\n}", recvName(pair), methodName(pair), params, results, c.methodBody(pair, m))
+	fmt.Fprintf(&sb, "func (r *%s) %s(%s) %s {\n%s\n}", recv, mname, params, results, c.methodBody(pair, mname, m))
 	out := append(append(append([]byte{}, src[:start]...), sb.String()...), src[end:]...)
 	if strings.Contains(sb.String(), "fmt.") && !bytes.Contains(out, []byte("\t\"fmt\"\n")) {
 		// like the user's editor: the body references fmt, so the file imports it
@@ -334,7 +338,7 @@ func (c *Conc) register(rfile, pair string, m MethRec) error {
 	if err != nil {
 		return err
 	}
-	fd := findMethod(f, recvName(pair), methodName(pair))
+	fd, _ := c.findMethod(f, pair)
 	if fd == nil {
 		return fmt.Errorf("register: method not found")
 	}
@@ -553,7 +557,7 @@ const defaultBodySingle = `panic("not implemented")`
 
 func (c *Conc) pairOf(recv, name string) string {
 	for _, p := range c.Pairs {
-		if recvName(p) == recv && methodName(p) == name {
+		if normName(recv) == normName(c.typeName(p))+"resolver" && normName(name) == normName(c.fieldName(p)) {
 			return p
 		}
 	}
@@ -611,8 +615,7 @@ func (c *Conc) projectMethod(fset *token.FileSet, src []byte, fd *ast.FuncDecl, 
 	if body == defaultBodySingle {
 		rec.Body = "gen"
 	} else if m := reDefaultBody.FindStringSubmatch(body); m != nil {
-		_, f := splitPair(pair)
-		if m[1] == methodName(pair) && m[2] == f {
+		if m[1] == fd.Name.Name && m[2] == c.fieldName(pair) {
 			rec.Body = "gen"
 		} else {
 			rec.Body = "?default-body-of-" + m[1]
@@ -631,7 +634,7 @@ func (c *Conc) projectMethod(fset *token.FileSet, src []byte, fd *ast.FuncDecl, 
 	switch {
 	case raw == "":
 		rec.Doc = "none"
-	case raw == c.docText("gen", pair):
+	case raw == c.docText("gen", pair, fd.Name.Name):
 		rec.Doc = "gen"
 	default:
 		if tok, ok := c.docTok[pair+"|"+raw]; ok {
